@@ -228,13 +228,20 @@ def render_spec(spec: dict[str, Any]) -> str:
     return S.render(spec)
 
 
-def _render_party(n: Any) -> str:
-    if n[0] == "nt" and len(n) > 2:
+def _render_party(n: Any, top: bool = True) -> str:
+    k = n[0]
+    if k == "nt" and len(n) > 2:
         return f"<{n[2]}:{n[3]}:{n[1]}>" if n[3] else f"<{n[2]}:{n[1]}>"
-    if n[0] == "seq":
-        return " ".join(_render_party(c) for c in n[1])
-    if n[0] in ("opt", "star", "plus"):
-        return _render_party(n[1]) + {"opt": "?", "star": "*", "plus": "+"}[n[0]]
+    if k == "seq":
+        s_ = " ".join(_render_party(c, False) for c in n[1])
+        return s_ if top else f"({s_})"
+    if k == "alt":
+        s_ = " | ".join(_render_party(c, False) for c in n[1])
+        return s_ if top else f"({s_})"
+    if k in ("opt", "star", "plus"):
+        return _render_party(n[1], False) + {"opt": "?", "star": "*", "plus": "+"}[k]
+    if k == "rep":
+        return _render_party(n[1], False) + f"{{{n[2]},{n[3]}}}"
     return S.render_node(n)
 
 
@@ -242,6 +249,8 @@ def check_case(case: dict[str, Any], ctx: Any = None) -> list[str]:
     from fandango import Fandango
 
     msgs: list[str] = []
+    if case["kind"] == "sliced":
+        return check_sliced(case, ctx)
     if case["kind"] == "grammar":
         text1 = render_spec(case["spec"])
     else:
@@ -331,6 +340,64 @@ def check_case(case: dict[str, Any], ctx: Any = None) -> list[str]:
         nt = _nontrivial(case, text1)
         ctx.case(text1, nt, ("kind=" + case["kind"],), sample={"original": text1[:400], "printed": p1[:400]})
     return msgs[:4]
+
+
+class _Shim:
+    def __init__(self, spec: Any):
+        self.grammar = spec.grammar
+        self.constraints = list(spec.constraints)
+        self.grammar.update_parser()
+        self.grammar.prime()
+
+
+@st.composite
+def sliced_cases(draw: Any) -> dict[str, Any]:
+    """A protocol whose alternatives belong to different parties, under postfix operators: sliced to one party (as
+    `fandango convert --party` does) some alternatives are left with a single branch."""
+    a_alt = draw(st.sampled_from([["seq", [["nt", "ping", "A", "B"], ["nt", "sep"]]], ["nt", "ping", "A", "B"],
+                                  ["seq", [["nt", "sep"], ["nt", "ping", "A", "B"], ["nt", "sep"]]]]))
+    b_alt = draw(st.sampled_from([["nt", "pong", "B", "A"], ["seq", [["nt", "pong", "B", "A"], ["nt", "sep"]]]]))
+    alts = [a_alt, b_alt] if draw(st.booleans()) else [b_alt, a_alt]
+    if draw(st.integers(0, 2)) == 0:
+        alts.append(["nt", "ping", "A", "B"])
+    op = draw(st.sampled_from(["star", "plus", "opt", "rep"]))
+    group: Any = ["alt", alts]
+    body = [op, group] if op != "rep" else ["rep", group, draw(st.integers(0, 1)), draw(st.integers(2, 3))]
+    parts = draw(st.sampled_from([[body, ["nt", "end"]], [["nt", "end"], body], [body]]))
+    rules = [["start", ["seq", parts] if len(parts) > 1 else parts[0]], ["ping", ["lit", "ping"]], ["pong", ["lit", "pong"]],
+             ["sep", ["lit", ";"]], ["end", ["lit", "end"]]]
+    return {"kind": "sliced", "spec": {"rules": rules, "mode": "text", "alphabet": "ab", "parties": True}, "party": draw(st.sampled_from(["A", "A", "B"]))}
+
+
+def check_sliced(case: dict[str, Any], ctx: Any = None) -> list[str]:
+    from fandango.language.parse.parse_spec import parse_content
+
+    lines = [f"<{name}> ::= " + _render_party(rhs) for name, rhs in case["spec"]["rules"]]
+    text1 = "\n".join(lines) + "\n"
+    try:
+        sliced = parse_content(text1, filename="<verif-sliced>", use_cache=False, parties=[case["party"]])
+        f1 = _Shim(sliced)
+    except Exception as e:
+        if ctx is not None:
+            ctx.count(f"sliced_original_rejected:{type(e).__name__}")
+        return []
+    p1 = str(sliced)
+    try:
+        f2 = _Shim(parse_content(p1, filename="<verif-reread>", use_cache=False))
+    except Exception as e:
+        return [f"the printed form of the spec sliced to party {case['party']} cannot be read back ({type(e).__name__}: {str(e)[:120]}):\n{p1}"]
+    msgs: list[str] = []
+    ir1, ir2 = grammar_ir(f1), grammar_ir(f2)
+    if ir1 != ir2:
+        w = witness(f1, f2, ir1, ir2, case)
+        if w is not None:
+            msgs.append(f"sliced to party {case['party']}, printed and read back the grammar changes meaning; witness {w[0]!r} is accepted only by "
+                        f"the {'sliced' if w[1] else 're-read'} grammar.\n original: {text1.strip()[:300]}\n printed : {p1.strip()[:300]}")
+        elif ctx is not None:
+            ctx.count("ir_differs_no_witness")
+    if ctx is not None:
+        ctx.case(text1 + case["party"], True, ("kind=sliced",), sample={"original": text1[:300], "printed": p1[:300], "party": case["party"]})
+    return msgs
 
 
 def _strip_ids(s: str) -> str:
@@ -423,6 +490,13 @@ def run_shard(ctx: Any) -> None:
         if msgs:
             ctx.fail(case, msgs)
 
+    @given(sliced_cases())
+    def test_s(case: dict[str, Any]) -> None:
+        msgs = check_case(case, ctx)
+        if msgs:
+            ctx.fail(case, msgs)
+
+    ctx.run_test(test_s, 20 if ctx.tier == "quick" else 400, salt="s")
     ctx.run_test(test_g, n1, salt="g")
     ctx.run_test(test_c, n2, salt="c")
 
